@@ -8,7 +8,8 @@ use base::api::*;
 use base::json::J;
 
 fn bad_out_lens(l: usize, step: usize, extra: usize) -> Vec<usize> {
-    let mut v = vec![0, l.saturating_sub(step), l + step, l + extra];
+    // every wrong output length on the call's granule from 0 to l + extra (not a sample of them); coarse for long inputs
+    let mut v: Vec<usize> = if (l + extra) / step.max(1) <= 48 { (0..=(l + extra) / step.max(1)).map(|i| i * step.max(1)).collect() } else { vec![0, l.saturating_sub(step), l + step, l + extra] };
     v.sort();
     v.dedup();
     v.retain(|&x| x != l);
@@ -112,7 +113,7 @@ pub fn run(ctx: &Ctx) -> Outcome {
             if d.dir == Dir::Dec && d.mbs > 1 {
                 for pad in PADS {
                     for k in KINDS {
-                        for l in [1usize, d.mbs - 1, d.mbs + 1, 2 * d.mbs - 1, 2 * d.mbs + d.mbs / 2 + 1] {
+                        for l in (if d.mbs <= 32 { (1..=3 * d.mbs).collect::<Vec<usize>>() } else { vec![1usize, d.mbs - 1, d.mbs + 1, 2 * d.mbs - 1, 2 * d.mbs + d.mbs / 2 + 1] }) {
                             if l % d.mbs == 0 {
                                 continue;
                             }
